@@ -344,7 +344,7 @@ class Literal:
         """Parse source when self.value represents a literal."""
         # we check position to ensure that the case pattern = '' and start >= len(source)
         # is handled correctly.
-        if start < len(source):
+        if start <= len(source):
             src = source[start : start + len(self.value)]
             match = src if self.case_sensitive else src.translate(ASCII_CASEFOLD)
             if match == self.pattern:
